@@ -56,7 +56,27 @@ def run_case(ck, case, reqs, pending):
         sc = statics.build_static(c)
         if sc is None:
             ck.count("rejected_tissue"); return
-        ph = physical.run_static(sc, fit=fit, pressure=True)
+        try:
+            ph = physical.run_static(sc, fit=fit, pressure=True)
+        except ValueError as ex:
+            # finding D27 (C08): a two-point interface on the rim of the tissue whose two ends are junctions of three or more cells
+            # (only with four-fold junctions) is classified internal although it borders one cell; the pressure step then raises
+            if "own_cells=1" not in str(ex):
+                raise
+            sc2 = statics.build_static(c)
+            ph2 = physical.run_static(sc2, fit=fit, pressure=False, solve=False)
+            rim = []
+            for be in ph2.frame.internal_big_edges:
+                ids = [int(x) for x in be.get_vertices_ids()]
+                if len(ids) == 2 and len(be.own_cells) == 1:
+                    along = [cid for cid, cl in ph2.frame.cells.items()
+                             if any({int(a.id), int(b.id)} == set(ids) for a, b in zip(cl.vertices, cl.vertices[1:] + cl.vertices[:1]))]
+                    if len(along) == 1:
+                        rim.append(ids)
+            ck.fail("the implementation completes on an input inside the property's domain", f"variant {k}: {type(ex).__name__}: {str(ex)[:80]}; "
+                    f"two-point rim interfaces classified internal: {rim[:3]}", c, signature="two-point-rim-interface-between-multi-cell-junctions" if rim else None)
+            ck.case(case, nontrivial=False)
+            return
         if ph.tension is None:
             ck.count("rejected_no_equations"); return
         ifaces = sorted(tuple(sorted(r)) for r in ph.ridges)
